@@ -215,6 +215,8 @@ pub struct Src {
     pub cb_this_dispatch: u32,
     pub pe_this_dispatch: u32,
     pub excused: bool,
+    /// reregister() calls seen when the dispatch started
+    pub rereg_at_start: u32,
     // history facts (for violation flags)
     pub was_disabled: bool,
     pub reenabled: bool,
